@@ -35,6 +35,9 @@ def order (h : Hdr) : UInt8 := (h.fc1 >>> 7) &&& 1
 def fragNum (h : Hdr) : UInt8 := h.sc0 &&& 0x0f
 /-- `dot11->wep(0)` -/
 def clearWep (h : Hdr) : Hdr := { h with fc1 := h.fc1 &&& 0xBF }
+/-- +HTC: the frame is a QoS data frame with the Order bit set, so that on the air a 4-octet HT Control field follows
+    the QoS control field.  libtins knows no such field: `Dot11QoSData` takes those octets for the start of the body. -/
+def htc (h : Hdr) : Bool := h.qos.isSome && h.order != 0
 /-- `Dot11QoSData::qos_control()` (little-endian 16-bit value) -/
 def qosControl (h : Hdr) : Nat := match h.qos with | some (a, b) => a.toNat + 256 * b.toNat | none => 0
 
@@ -91,13 +94,11 @@ def mic (e : Eapol) : Bytes := (e.hdr.drop 76).take 16
 
 def be16 (n : Nat) : Bytes := [(n / 256 % 256).toUInt8, (n % 256).toUInt8]
 
-/-- `RSNEAPOL::serialize()`: the EAPOL length is recomputed; when there is key data the key-data length (and, for
-    group-key messages, the key length) are rewritten by `write_body` -/
+/-- `RSNEAPOL::serialize()`: the EAPOL length is recomputed (`length(total_sz - 4)`); when there is key data
+    `write_body` rewrites the key-data length (`wpa_length(key_.size())`), nothing else -/
 def serialize (e : Eapol) : Bytes :=
   let total := 99 + e.key.length + e.trailing.length
-  let hdr := if e.key.isEmpty then e.hdr else
-    let h1 := if !e.keyT && e.install then e.hdr.take 2 ++ [0, 32] ++ e.hdr.drop 4 else e.hdr
-    h1.take 92 ++ be16 (e.key.length % 65536)
+  let hdr := if e.key.isEmpty then e.hdr else e.hdr.take 92 ++ be16 (e.key.length % 65536)
   [e.version, e.packetType] ++ be16 ((total - 4) % 65536) ++ [e.descType] ++ hdr ++ e.key ++ e.trailing
 end Eapol
 
@@ -105,8 +106,9 @@ end Eapol
 def parseEapol (b : Bytes) : Except Exc (Option Eapol) :=
   if b.length < 5 then .error .malformedPacket else
   let dataLen := (b.getD 2 0).toNat * 256 + (b.getD 3 0).toNat + 4
-  let b := b.take (min b.length dataLen)
+  -- `switch (ptr->type)` reads the caller's buffer, whatever `total_sz = min(total_sz, data_len)` has become
   let t := b.getD 4 0
+  let b := b.take (min b.length dataLen)
   if t == 2 || t == 254 then
     if b.length < 99 then .error .malformedPacket else
     let hdr := (b.drop 5).take 94
